@@ -70,8 +70,11 @@ pub fn parse_6bit_ascii(
     let char_count = size / 6;
     #[cfg(any(feature = "std", feature = "alloc"))]
     let (input, bytes) = count(map_res(take_bits(6u8), sixbit_to_ascii), char_count)(input)?;
+    // One character more than the text may hold: a variable-length text that ends the message
+    // is followed by the zero bits that pad the payload to whole bytes, and after a text of
+    // the full 20 characters these amount to one more (padding) character.
     #[cfg(all(not(feature = "std"), not(feature = "alloc")))]
-    let (input, bytes) = count::<_, _, _, _, MAX_6BIT_ARRAY_BYTES>(
+    let (input, bytes) = count::<_, _, _, _, { MAX_6BIT_ARRAY_BYTES + 1 }>(
         map_res(take_bits(6u8), sixbit_to_ascii),
         char_count,
     )(input)?;
@@ -91,14 +94,13 @@ pub fn parse_6bit_ascii(
     }
     #[cfg(all(not(feature = "std"), not(feature = "alloc")))]
     {
-        lib::std::str::from_utf8(&bytes)
-            .map(|val| {
-                (
-                    input,
-                    val.trim_start().trim_end_matches('@').trim_end().into(),
-                )
-            })
-            .map_err(|_| nom::Err::Failure(nom::error::Error::new(input, ErrorKind::AlphaNumeric)))
+        let val = lib::std::str::from_utf8(&bytes)
+            .map_err(|_| nom::Err::Failure(nom::error::Error::new(input, ErrorKind::AlphaNumeric)))?;
+        let val = val.trim_start().trim_end_matches('@').trim_end();
+        if val.len() > MAX_6BIT_ARRAY_BYTES {
+            return Err(nom::Err::Failure(nom::error::Error::new(input, ErrorKind::TooLarge)));
+        }
+        Ok((input, val.into()))
     }
 }
 
